@@ -65,6 +65,21 @@ FALLBACK = os.path.join(HERE, 'gen_fallback.json')
 TEXT, OTEXT, BOOL, PVAL, BYTES, QVAL, QUERY, PAIRS, PVALS, ENVIRON, SELF, REQ, KWD, CLS, ERASED, FUNC, NAME, ELS, TUP, OBJ = (
     'text', 'option text', 'bool', 'pval', 'bytes', 'qval', 'query', 'pairs', 'pvals', 'environ', 'self', 'request',
     'kw', 'cls', 'erased', 'func', 'name', 'elements', 'tuple', 'object')
+# round 5: the registry glue of route_url / current_route_url / static_url
+REGISTRY, MAPPER, OROUTE, OPREGEN, ONAME, MROUTE, STATICINFO, MATCHDICT, GETDICT, ELSPAIR = (
+    'registry', 'routes mapper', 'route or None', 'pregenerator or None', 'route name or None', 'matched route or None',
+    'static url info or None', 'matchdict', 'GET', 'elements, kw')
+PARSEDURL, OVR = 'urlparse result of the pattern', 'overrides'
+
+
+def kwd(term, kw='kw', popped=False, empty=False, binds=()):
+    """a keyword dictionary: [term] its override part (overrides), aux['kw'] its other keywords (list (text * kwval));
+    popped: parse_url_overrides has removed the override keys; empty: a {} nothing was put into yet"""
+    return Val(term, KWD, binds, {'kw': kw, 'popped': popped, 'empty': empty})
+
+
+def kaux(v):
+    return v.aux if isinstance(v.aux, dict) else {'kw': 'kw', 'popped': False, 'empty': False}
 COQTY = {TEXT: 'text', OTEXT: 'option text', BYTES: 'text', PVAL: 'pval', QVAL: 'qval', QUERY: 'query'}
 
 
@@ -139,11 +154,14 @@ POPS = {'_app_url': ('o_app_url', OTEXT, None), '_scheme': ('o_scheme', OTEXT, N
 SAFES = {'QUERY_SAFE': 'query_safe', 'ANCHOR_SAFE': 'anchor_safe', 'PATH_SAFE': 'path_safe',
          'PATH_SEGMENT_SAFE': 'path_segment_safe'}
 RAISES = {'KeyError': 'EKey', 'ValueError': 'EVal'}
-HELPERS = {   # self.<helper>(...) in the *_path glue -> model call on the canonical arguments
-    'route_url': ('route_url_x c e xs rs name els %s kw', ['route_name', '*elements', '**kw']),
-    'resource_url': ('resource_url_x c e rs names els %s vroot rn', ['resource', '*elements', '**kw']),
-    'static_url': ('static_url_x e rs regs path %s kw', ['path', '**kw']),
-    'current_route_url': ('current_route_url_x c e xs rs rname matched md gt els %s kw', ['*elements', '**kw']),
+HELPERS = {   # self.<helper>(...) / request.<helper>(...) in the glue -> model call on the canonical arguments
+    'route_url': ('route_url_x c e xs rs %(name)s els %(o)s %(kw)s', ['NAME', '*elements', '**kw']),
+    'route_path': ('route_path_x c e xs rs %(name)s els %(o)s %(kw)s', ['NAME', '*elements', '**kw']),
+    'resource_url': ('resource_url_x c e rs names els %(o)s vroot rn', ['NAME', '*elements', '**kw']),
+    'static_url': ('static_url_x e rs regs %(name)s %(o)s %(kw)s', ['NAME', '**kw']),
+    'static_path': ('static_path_x e rs regs %(name)s %(o)s %(kw)s', ['NAME', '**kw']),
+    'current_route_url': ('current_route_url_x c e xs rs rname matched md gt els %(o)s %(kw)s', ['*elements', '**kw']),
+    'current_route_path': ('current_route_path_x c e xs rs rname matched md gt els %(o)s %(kw)s', ['*elements', '**kw']),
 }
 
 
@@ -170,11 +188,16 @@ class Fn:
         names = [x.arg for x in a.args] + (['*' + a.vararg.arg] if a.vararg else []) + (['**' + a.kwarg.arg] if a.kwarg else [])
         if len(names) != len(params):
             raise Problem('expected %d parameters, found %s' % (len(params), names))
+        if a.kwarg is not None and 'argnames' in spec and [x.arg for x in a.args] != spec['argnames']:
+            # a keyword of the caller that equals a positional parameter's name is a TypeError: with **kw the
+            # parameter names are part of the calling convention (placeholders are passed as keywords)
+            raise Problem('positional parameters %s, expected %s (with **keywords their names are part of the interface)'
+                          % ([x.arg for x in a.args], spec['argnames']))
         defaults = [None] * (len(a.args) - len(a.defaults)) + list(a.defaults)
         env = {}
         for i, (nm, (term, ty, dflt)) in enumerate(zip(names, params)):
             star = nm.count('*')
-            if star != {ELS: 1, KWD: 2}.get(ty, 0) and not (ty == KWD and star == 0 and spec.get('kw_positional')):
+            if star != {ELS: 1, KWD: 2}.get(ty, 0) and not (ty in (KWD, ELS) and star == 0 and spec.get('kw_positional')):
                 raise Problem('parameter %s: wrong kind' % nm)
             if i < len(a.args):
                 d = defaults[i]
@@ -185,7 +208,11 @@ class Fn:
                     if d is None or not isinstance(d, (ast.Constant, ast.Name)) or \
                             (isinstance(d, ast.Constant) and d.value != dflt) or (isinstance(d, ast.Name) and d.id != dflt):
                         raise Problem('parameter %s: default is not %r' % (nm, dflt))
-            env[nm.lstrip('*')] = Val(term, ty)
+            env[nm.lstrip('*')] = kwd(term) if ty == KWD else Val(term, ty)
+        for nm, (term, ty) in (spec.get('closure') or {}).items():
+            if nm in env:
+                raise Problem('parameter %s shadows the enclosing binding' % nm)
+            env[nm] = Val(term, ty)
         for n in ast.walk(fn):
             if isinstance(n, (ast.Global, ast.Nonlocal, ast.Lambda, ast.ListComp, ast.SetComp, ast.DictComp, ast.GeneratorExp,
                               ast.NamedExpr, ast.Await, ast.Yield, ast.YieldFrom, ast.While, ast.With, ast.Delete)) or \
@@ -209,6 +236,8 @@ class Fn:
             return k_next(env, known)
         if isinstance(s, ast.Pass):
             return k_next(env, known)
+        if isinstance(s, ast.Expr) and isinstance(s.value, ast.Call):
+            return k_next(self.dict_update(s.value, env, known), known)
         if isinstance(s, ast.Return):
             if s.value is None:
                 raise Problem('bare return')
@@ -246,9 +275,25 @@ class Fn:
                 raise Problem('return of a %s where a 3-tuple of texts is expected: %s' % (v.ty, u(s)))
         elif v.ty != want:
             raise Problem('return of a %s where a %s is expected: %s' % (v.ty, want, u(s)))
+        if want == OVR and kaux(v)['kw'] != 'kw':
+            raise Problem('the returned dictionary lost or gained plain keywords: %s' % u(s))
 
     def try_items(self, s, env):
-        """try: q = q.items() / except AttributeError: pass"""
+        """try: q = q.items() / except AttributeError: pass ;
+        try: reg = self.registry / except AttributeError: reg = get_current_registry()"""
+        if (len(s.body) == 1 and len(s.handlers) == 1 and not s.orelse and not s.finalbody
+                and isinstance(s.handlers[0].type, ast.Name) and s.handlers[0].type.id == 'AttributeError'
+                and s.handlers[0].name is None and len(s.handlers[0].body) == 1
+                and isinstance(s.body[0], ast.Assign) and isinstance(s.handlers[0].body[0], ast.Assign)):
+            a, b = s.body[0], s.handlers[0].body[0]
+            if (len(a.targets) == 1 and len(b.targets) == 1 and isinstance(a.targets[0], ast.Name)
+                    and isinstance(b.targets[0], ast.Name) and a.targets[0].id == b.targets[0].id
+                    and isinstance(a.value, ast.Attribute) and a.value.attr == 'registry' and isinstance(a.value.value, ast.Name)
+                    and a.value.value.id in env and env[a.value.value.id].ty in (SELF, REQ)
+                    and ast.unparse(b.value) == 'get_current_registry()'):
+                env = dict(env)
+                env[a.targets[0].id] = Val(env[a.value.value.id].term, REGISTRY)
+                return env
         ok = (len(s.body) == 1 and isinstance(s.body[0], ast.Assign) and len(s.handlers) == 1 and not s.orelse
               and not s.finalbody and isinstance(s.handlers[0].type, ast.Name) and s.handlers[0].type.id == 'AttributeError'
               and len(s.handlers[0].body) == 1 and isinstance(s.handlers[0].body[0], ast.Pass))
@@ -262,6 +307,31 @@ class Fn:
         if not ok:
             raise Problem('try statement outside the table: %s' % u(s))
         return env
+
+    def dict_update(self, call, env, known):
+        """newkw.update(self.matchdict) / newkw.update(kw) on a dictionary created by `newkw = {}` in this function.
+        matchdict holds placeholder names only (no key starts with '_'): it goes to the plain-keyword part"""
+        f = call.func
+        if not (isinstance(f, ast.Attribute) and f.attr == 'update' and isinstance(f.value, ast.Name) and len(call.args) == 1
+                and not call.keywords and f.value.id in env and env[f.value.id].ty == KWD):
+            raise Problem('statement outside the subset: %s' % u(call))
+        tgt = env[f.value.id]
+        a = kaux(tgt)
+        if a['popped'] or tgt.binds or tgt.term != 'c17_ov_empty':
+            raise Problem('%s: the target is not a dictionary built from {} in this function' % u(call))
+        src = self.ev(call.args[0], env, known)
+        env = dict(env)
+        if src.ty == MATCHDICT:
+            kwterm = src.term if a['empty'] else 'dupdate %s %s' % (par(a['kw']), par(src.term))
+            env[f.value.id] = kwd('c17_ov_empty', kwterm, False, False)
+            return env
+        if src.ty == KWD and not kaux(src)['popped'] and not src.binds and f.value.id != call.args[0].id:
+            b = kaux(src)
+            kwterm = b['kw'] if a['empty'] else 'dupdate %s %s' % (par(a['kw']), par(b['kw']))
+            # the override part of the target is still empty: it becomes the source's
+            env[f.value.id] = kwd(src.term, kwterm, False, False)
+            return env
+        raise Problem('%s: update with a %s' % (u(call), src.ty))
 
     def assign(self, s, env, known):
         """-> (env', binds to sequence here)"""
@@ -291,6 +361,38 @@ class Fn:
                 env[tg.elts[0].id] = Val('before %d %s' % (c, par(x.term)), TEXT)
                 env[tg.elts[1].id] = Val('after %d %s' % (c, par(x.term)), TEXT)
                 return env, []
+            val = s.value
+            # app_url, qs, anchor = parse_url_overrides(self, kw)
+            if (len(tg.elts) == 3 and all(isinstance(e, ast.Name) for e in tg.elts) and len({e.id for e in tg.elts}) == 3
+                    and isinstance(val, ast.Call) and isinstance(val.func, ast.Name) and val.func.id == 'parse_url_overrides'
+                    and len(val.args) == 2 and not val.keywords and isinstance(val.args[1], ast.Name)):
+                r, k = self.ev(val.args[0], env, known), self.ev(val.args[1], env, known)
+                if r.ty not in (SELF, REQ) or k.ty != KWD or kaux(k)['popped']:
+                    raise Problem('arguments of %s' % u(val))
+                x = self.fresh('aqf')
+                for e, proj in zip(tg.elts, ('fst (fst %s)', 'snd (fst %s)', 'snd %s')):
+                    if e.id in env and env[e.id].ty in (KWD, SELF, REQ, ELS):
+                        raise Problem('%s rebinds %s' % (u(s), e.id))
+                    env[e.id] = Val(proj % x, TEXT)
+                a = kaux(k)
+                env[val.args[1].id] = kwd(k.term, a['kw'], True, False)
+                return env, k.binds + [(x, 'parse_url_overrides %s %s' % (r.term, par(k.term)))]
+            # elements, kw = route.pregenerator(self, elements, kw)
+            if (len(tg.elts) == 2 and all(isinstance(e, ast.Name) for e in tg.elts) and isinstance(val, ast.Call)
+                    and isinstance(val.func, ast.Attribute) and val.func.attr == 'pregenerator' and len(val.args) == 3
+                    and not val.keywords and all(isinstance(a, ast.Name) for a in val.args)
+                    and [e.id for e in tg.elts] == [a.id for a in val.args[1:]]):
+                route = self.ev(val.func.value, env, known)
+                r, el, k = [self.ev(a, env, known) for a in val.args]
+                if route.ty != OROUTE or r.ty != SELF or el.ty != ELS or k.ty != KWD or k.binds or kaux(k)['popped']:
+                    raise Problem('arguments of %s' % u(val))
+                pre = 'assoc %s xs' % par(route.aux)
+                if known.get('onone %s' % par(route.term)) is not False or known.get('onone %s' % par(pre)) is not False:
+                    raise Problem('%s is not dominated by `route is not None` and `route.pregenerator is not None`' % u(val))
+                x = self.fresh('kw')
+                a = kaux(k)
+                env[val.args[2].id] = kwd(x, a['kw'], False, False)
+                return env, [(x, 'c17_ext_pregen %s %s (c17_ext_of %s)' % (r.term, par(k.term), par(pre)))]
             raise Problem('unpacking outside the table: %s' % u(s))
         if isinstance(tg, ast.Subscript):
             # kw['_app_url'] = x
@@ -299,12 +401,33 @@ class Fn:
                 v = self.ev(s.value, env, known)
                 if v.ty != TEXT:
                     raise Problem('%s: a %s' % (u(s), v.ty))
-                env[tg.value.id] = Val('set_app_url %s %s' % (par(env[tg.value.id].term), par(v.term)), KWD)
+                a = kaux(env[tg.value.id])
+                if a['popped']:
+                    raise Problem('%s after parse_url_overrides consumed the override keys' % u(s))
+                env[tg.value.id] = kwd('set_app_url %s %s' % (par(env[tg.value.id].term), par(v.term)), a['kw'], False, False,
+                                       env[tg.value.id].binds)
                 return env, v.binds
+            # kw['_query'] = self.GET
+            if (isinstance(tg.value, ast.Name) and tg.value.id in env and env[tg.value.id].ty == KWD
+                    and isinstance(tg.slice, ast.Constant) and tg.slice.value == '_query' and self.spec.get('query_default')):
+                v = self.ev(s.value, env, known)
+                a = kaux(env[tg.value.id])
+                if v.ty != GETDICT or a['popped']:
+                    raise Problem('%s: a %s' % (u(s), v.ty))
+                env[tg.value.id] = kwd('set_query %s (QPairs %s)' % (par(env[tg.value.id].term), par(v.term)), a['kw'], False, False,
+                                       env[tg.value.id].binds)
+                return env, []
             raise Problem('item assignment outside the table: %s' % u(s))
         if not isinstance(tg, ast.Name):
             raise Problem('assignment target outside the subset: %s' % u(s))
+        if isinstance(s.value, ast.Dict) and not s.value.keys:
+            if tg.id in env:
+                raise Problem('%s rebinds %s' % (u(s), tg.id))
+            env[tg.id] = kwd('c17_ov_empty', '[]', False, True)
+            return env, []
         v = self.ev(s.value, env, known)
+        if tg.id in env and env[tg.id].ty in (KWD, SELF, REQ, ELS, REGISTRY) and v.ty != env[tg.id].ty:
+            raise Problem('%s rebinds %s' % (u(s), tg.id))
         env[tg.id] = Val(v.term, v.ty, aux=v.aux)
         return env, v.binds
 
@@ -375,6 +498,8 @@ class Fn:
                 notnone = (kind == 'none' and not p) or (kind == 'truthy' and p)
                 if notnone and var in env and env[var].ty == OTEXT:
                     env[var] = Val('oget %s' % par(env[var].term), TEXT)
+                if notnone and var in env and env[var].ty == ONAME:
+                    env[var] = Val('oget %s' % par(env[var].term), NAME)
         return env, known
 
     def run_simple(self, stmts, env, known):
@@ -432,11 +557,17 @@ class Fn:
             except Problem as e:
                 out[v] = Val(str(e), 'conflict')      # reading it later is a Problem
                 continue
+            aux = None
+            if ty in (KWD, OROUTE, OPREGEN):
+                if a.aux != b.aux:
+                    out[v] = Val('%s: the two branches leave different dictionaries behind' % v, 'conflict')
+                    continue
+                aux = a.aux
             if not a.binds and not b.binds:
-                out[v] = Val(mk_if(c, ta, tb), ty)
+                out[v] = Val(mk_if(c, ta, tb), ty, aux=aux)
             else:
                 x = self.fresh(v)
-                out[v] = Val(x, ty, [(x, mk_if(c, wrap(a.binds, 'Ok %s' % par(ta)), wrap(b.binds, 'Ok %s' % par(tb))))])
+                out[v] = Val(x, ty, [(x, mk_if(c, wrap(a.binds, 'Ok %s' % par(ta)), wrap(b.binds, 'Ok %s' % par(tb))))], aux)
         return out
 
     def do_if(self, s, env, known, k_next, loop):
@@ -446,7 +577,7 @@ class Fn:
             for v in self.stores(list(s.body) + list(s.orelse)):
                 if v in env2 and env2[v].binds:
                     binds += env2[v].binds
-                    env2[v] = Val(env2[v].term, env2[v].ty)
+                    env2[v] = Val(env2[v].term, env2[v].ty, aux=env2[v].aux)
                 elif v in env2 and env2[v].ty in COQTY and env2[v].term.startswith('(if '):
                     x = self.fresh(v)              # a merged value is named once (no textual blow-up)
                     lets.append((x, env2[v].term))
@@ -458,9 +589,22 @@ class Fn:
         c = self.cond(s.test, env, known)
         envT, knownT = self.refine(env, known, c, True)
         envE, knownE = self.refine(env, known, c, False)
-        t = self.block(list(s.body), envT, knownT, lambda e2, k2: k_next(self.unrefine(env, e2, s.body), known), loop)
-        e = self.block(list(s.orelse), envE, knownE, lambda e2, k2: k_next(self.unrefine(env, e2, s.orelse), known), loop)
+        leavesT, leavesE = self.leaves(s.body), self.leaves(s.orelse)
+        kT = (lambda e2, k2: k_next(e2, k2)) if leavesE else (lambda e2, k2: k_next(self.unrefine(env, e2, s.body), known))
+        kE = (lambda e2, k2: k_next(e2, k2)) if leavesT else (lambda e2, k2: k_next(self.unrefine(env, e2, s.orelse), known))
+        t = self.block(list(s.body), envT, knownT, kT, loop)
+        e = self.block(list(s.orelse), envE, knownE, kE, loop)
         return mk_if(c, t, e)
+
+    @staticmethod
+    def leaves(stmts):
+        """control never reaches the end of the block"""
+        if not stmts:
+            return False
+        last = stmts[-1]
+        if isinstance(last, (ast.Raise, ast.Return)):
+            return True
+        return isinstance(last, ast.If) and Fn.leaves(last.body) and Fn.leaves(last.orelse)
 
     def unrefine(self, env, env2, stmts):
         """after a branch: variables it did not assign read as before the if"""
@@ -554,6 +698,12 @@ class Fn:
                         a = ('atom', 'onone %s' % par(v.term), (l.id, 'none') if isinstance(l, ast.Name) else None)
                     elif v.ty == QVAL:
                         a = ('atom', 'qv_none %s' % par(v.term), None)
+                    elif v.ty == ONAME:
+                        a = ('atom', 'onone %s' % par(v.term), (l.id, 'none') if isinstance(l, ast.Name) else None)
+                    elif v.ty in (OROUTE, OPREGEN):
+                        a = ('atom', 'onone %s' % par(v.term), None)
+                    elif v.ty == STATICINFO:
+                        a = ('atom', 'c17_no_static_info %s' % par(v.term), None)
                     elif v.ty == TEXT:
                         raise Problem('`is None` test of a value that cannot be None here: %s' % u(n))
                     else:
@@ -579,6 +729,13 @@ class Fn:
                 else:
                     raise Problem('== on a %s: %s' % (v.ty, u(n)))
                 return ('not', a) if isinstance(op, ast.NotEq) else a
+            if isinstance(op, (ast.In, ast.NotIn)) and isinstance(l, ast.Constant) and l.value in self.spec.get('kw_keys', {}):
+                # '_route_name' in kw / '_query' in kw : is the keyword present
+                v = self.ev(r, env, known)
+                if v.ty != KWD or v.binds or kaux(v)['popped']:
+                    raise Problem('`in` on a %s: %s' % (v.ty, u(n)))
+                a = ('not', ('atom', 'onone %s' % par(self.spec['kw_keys'][l.value] % {'o': par(v.term)}), None))
+                return ('not', a) if isinstance(op, ast.NotIn) else a
             if isinstance(op, (ast.In, ast.NotIn)):
                 if not (isinstance(l, ast.Constant) and isinstance(l.value, str) and len(l.value) == 1):
                     raise Problem('membership test outside the table: %s' % u(n))
@@ -603,7 +760,10 @@ class Fn:
         v = self.ev(n, env, known)
         if v.binds:
             raise Problem('fallible operand in a test: %s' % u(n))
-        fn = {OTEXT: 'otruthy', TEXT: 'ttruthy', PVAL: 'truthy', QUERY: 'query_truthy', BYTES: 'ttruthy'}.get(v.ty)
+        if v.ty == BOOL:
+            return ('atom', v.term, None)
+        fn = {OTEXT: 'otruthy', TEXT: 'ttruthy', PVAL: 'truthy', QUERY: 'query_truthy', BYTES: 'ttruthy',
+              ELS: 'c17_els_truthy'}.get(v.ty)
         if fn is None:
             raise Problem('truth value of a %s is outside the table: %s' % (v.ty, u(n)))
         return ('atom', '%s %s' % (fn, par(v.term)), (n.id, 'truthy') if isinstance(n, ast.Name) and v.ty == OTEXT else None)
@@ -627,6 +787,9 @@ class Fn:
             raise Problem('name %s is unbound here or outside the table' % n.id)
         if isinstance(n, ast.Tuple):
             vs = [self.ev(e, env, known) for e in n.elts]
+            if len(vs) == 2 and vs[0].ty == ELS and vs[1].ty == KWD and not vs[0].binds and vs[0].term == 'els' \
+                    and not kaux(vs[1])['popped']:
+                return Val(vs[1].term, OVR, vs[1].binds, vs[1].aux)       # (elements unchanged, kw)
             if len(vs) != 3 or any(v.ty != TEXT for v in vs):
                 raise Problem('tuple outside the table: %s' % u(n))
             return Val('(%s, %s, %s)' % tuple(v.term for v in vs), TUP, sum((v.binds for v in vs), []), aux=3)
@@ -661,6 +824,11 @@ class Fn:
             o = self.ev(n.value, env, known)
             if o.ty == ENVIRON and n.slice.value in ENV_KEYS:
                 return Val('%s %s' % (ENV_KEYS[n.slice.value], o.term), TEXT)
+            if o.ty == KWD and n.slice.value == '_scheme' and not kaux(o)['popped'] and not o.binds:
+                t = 'o_scheme %s' % par(o.term)
+                if known.get('onone %s' % par(t)) is not False:
+                    raise Problem("%s is not dominated by a true `'_scheme' in kw` test" % u(n))
+                return Val('oget %s' % par(t), TEXT)
             raise Problem('subscript outside the table: %s' % u(n))
         if isinstance(n, ast.Attribute):
             o = self.ev(n.value, env, known)
@@ -673,6 +841,20 @@ class Fn:
                 return Val(x, TEXT, [(x, 'application_url %s' % o.term)])
             if o.ty == PVAL and n.attr == '__class__':
                 return Val(o.term, CLS)
+            if o.ty == PARSEDURL and n.attr == 'scheme':
+                return Val('c17_ext_scheme %s' % o.term, TEXT)
+            if o.ty == PARSEDURL and n.attr == 'netloc':
+                return Val('snd %s' % o.term, TEXT)
+            if o.ty == REQ and n.attr == 'scheme':
+                return Val('e_scheme %s' % o.term, TEXT)
+            if o.ty == OROUTE and n.attr == 'pregenerator':
+                if known.get('onone %s' % par(o.term)) is not False:
+                    raise Problem('%s where the route may be None' % u(n))
+                return Val('assoc %s xs' % par(o.aux), OPREGEN, aux=o.aux)
+            if o.ty == SELF and n.attr == 'GET' and self.spec.get('query_default'):
+                return Val('gt', GETDICT)
+            if o.ty == SELF and n.attr == 'matchdict' and self.spec.get('query_default'):
+                return Val('md', MATCHDICT)
             raise Problem('attribute outside the table: %s' % u(n))
         if isinstance(n, ast.Call):
             return self.call(n, env, known)
@@ -685,7 +867,7 @@ class Fn:
     def call(self, n, env, known):
         f = n.func
         kws = {k.arg: k.value for k in n.keywords}
-        if None in kws and not (isinstance(f, ast.Attribute) and f.attr in HELPERS):
+        if None in kws and not (isinstance(f, ast.Attribute) and (f.attr in HELPERS or f.attr == 'generate')):
             raise Problem('**kwargs call outside the table: %s' % u(n))
         if isinstance(f, ast.Name):
             if f.id == 'str' and len(n.args) == 1 and not kws:
@@ -734,9 +916,62 @@ class Fn:
                     raise Problem('urlencode of a %s / of a query that may be a str: %s' % (v.ty, u(n)))
                 x = self.fresh('q')
                 return Val(x, TEXT, v.binds + [(x, 'urlencode (q_pairs %s)' % par(v.term))])
+            if f.id == '_join_elements' and len(n.args) == 1 and not kws:
+                v = self.ev(n.args[0], env, known)
+                if v.ty != ELS:
+                    raise Problem('_join_elements of a %s: %s' % (v.ty, u(n)))
+                x = self.fresh('s')
+                return Val(x, TEXT, [(x, 'join_elements_c c %s' % par(v.term))])
+            if f.id == 'getattr' and len(n.args) == 3 and not kws and isinstance(n.args[1], ast.Constant) \
+                    and isinstance(n.args[2], ast.Constant) and n.args[2].value is None and self.spec.get('query_default'):
+                v = self.ev(n.args[0], env, known)
+                if v.ty == SELF and n.args[1].value == 'matched_route':
+                    return Val('matched', MROUTE)
+                if v.ty == MROUTE and n.args[1].value == 'name':
+                    return Val(v.term, ONAME)          # the name of the matched route, None when there is none
+                raise Problem('getattr outside the table: %s' % u(n))
             raise Problem('call outside the table: %s' % u(n))
         if isinstance(f, ast.Attribute):
             o = self.ev(f.value, env, known)
+            if o.ty == REGISTRY and f.attr == 'getUtility' and len(n.args) == 1 and not kws and ast.unparse(n.args[0]) == 'IRoutesMapper':
+                return Val(o.term, MAPPER)
+            if o.ty == REGISTRY and f.attr == 'queryUtility' and len(n.args) == 1 and not kws \
+                    and ast.unparse(n.args[0]) == 'IStaticURLInfo':
+                return Val('regs', STATICINFO)
+            if o.ty == MAPPER and f.attr == 'get_route' and len(n.args) == 1 and not kws:
+                v = self.ev(n.args[0], env, known)
+                if v.ty != NAME or v.binds:
+                    raise Problem('get_route of a %s: %s' % (v.ty, u(n)))
+                return Val('assoc %s rs' % par(v.term), OROUTE, aux=v.term)
+            if o.ty == OROUTE and f.attr == 'generate' and len(n.args) == 1 and not kws:
+                k = self.ev(n.args[0], env, known)
+                if known.get('onone %s' % par(o.term)) is not False:
+                    raise Problem('%s where the route may be None' % u(n))
+                if k.ty != KWD or k.binds or not kaux(k)['popped']:
+                    raise Problem('%s: the dictionary still holds the override keys (or is not the keyword dictionary)' % u(n))
+                x = self.fresh('path')
+                return Val(x, TEXT, [(x, 'generate (c17_route_of %s) %s' % (par(o.term), par(kaux(k)['kw'])))])
+            if o.ty == TEXT and f.attr == 'endswith' and len(n.args) == 1 and not kws and isinstance(n.args[0], ast.Constant) \
+                    and isinstance(n.args[0].value, str) and len(n.args[0].value) == 1 and not o.binds:
+                return Val('endswith_char %d %s' % (ord(n.args[0].value), par(o.term)), BOOL)
+            if o.ty == KWD and f.attr == 'pop' and len(n.args) == 1 and not kws and isinstance(n.args[0], ast.Constant) \
+                    and n.args[0].value == '_route_name' and self.spec.get('query_default'):
+                if known.get('onone rname') is not False:
+                    raise Problem("%s is not dominated by a true `'_route_name' in kw` test" % u(n))
+                return Val('oget rname', NAME)
+            if o.ty == STATICINFO and f.attr == 'generate' and len(n.args) == 2:
+                if known.get('c17_no_static_info %s' % par(o.term)) is not False:
+                    raise Problem('%s where the static URL info may be None' % u(n))
+                p, r = self.ev(n.args[0], env, known), self.ev(n.args[1], env, known)
+                kk = [k for k in n.keywords if k.arg is None]
+                if p.ty != NAME or r.ty != SELF or len(kk) != 1 or len(n.keywords) != 1 or not isinstance(kk[0].value, ast.Name):
+                    raise Problem('arguments of %s' % u(n))
+                k = self.ev(kk[0].value, env, known)
+                if k.ty != KWD or kaux(k)['popped']:
+                    raise Problem('arguments of %s' % u(n))
+                x = self.fresh('u')
+                return Val(x, TEXT, k.binds + [(x, 'c17_static_generate %s rs %s %s %s %s'
+                                                % (r.term, par(o.term), par(p.term), par(k.term), par(kaux(k)['kw'])))])
             if o.ty == ENVIRON and f.attr == 'get' and len(n.args) == 1 and not kws and isinstance(n.args[0], ast.Constant) \
                     and n.args[0].value == 'HTTP_HOST':
                 return Val('e_http_host %s' % o.term, OTEXT)
@@ -764,34 +999,36 @@ class Fn:
                     raise Problem('.encode of a %s (for a pval: only where it is known to be a str): %s' % (o.ty, u(n)))
                 x = self.fresh('b')
                 return Val(x, BYTES, o.binds + [(x, 'utf8_enc %s' % par(arg))])
-            if o.ty == SELF and f.attr in HELPERS:
+            if o.ty in (SELF, REQ) and f.attr in HELPERS:
                 fmt, want = HELPERS[f.attr]
                 got = []
                 for a in n.args:
                     got.append('*' + a.value.id if isinstance(a, ast.Starred) and isinstance(a.value, ast.Name)
                                else a.id if isinstance(a, ast.Name) else '?')
-                kwd = None
+                kwv = None
                 for k in n.keywords:
                     if k.arg is None and isinstance(k.value, ast.Name) and k.value.id in env and env[k.value.id].ty == KWD:
                         got.append('**kw')
-                        kwd = env[k.value.id]
+                        kwv = env[k.value.id]
                     else:
                         got.append('?')
                 # positional names are checked by TYPE (parameters may be renamed)
-                shape = []
+                shape, name = [], None
                 for g in got:
                     if g == '**kw':
                         shape.append('**kw')
                     elif g.startswith('*') and g[1:] in env and env[g[1:]].ty == ELS:
                         shape.append('*elements')
                     elif g in env and env[g].ty == NAME:
-                        shape.append(env[g].term)
+                        shape.append('NAME')
+                        name = env[g]
                     else:
                         shape.append('?')
-                if shape != want or kwd is None:
+                if shape != want or kwv is None or kaux(kwv)['popped'] or (name is not None and name.binds):
                     raise Problem('%s: arguments %s, expected %s' % (u(n), shape, want))
                 x = self.fresh('u')
-                return Val(x, TEXT, [(x, fmt % par(kwd.term))])
+                return Val(x, TEXT, kwv.binds + [(x, fmt % {'o': par(kwv.term), 'kw': par(kaux(kwv)['kw']),
+                                                           'name': par(name.term) if name is not None else ''})])
             raise Problem('method call outside the table: %s' % u(n))
         raise Problem('call outside the table: %s' % u(n))
 
@@ -803,16 +1040,30 @@ def static_prelude(s):
         [ast.unparse(x) for x in s.body[0].body] == ['package = caller_package()', "path = f'{package.__name__}:{path}'"]
 
 
+def no_user_pregenerator(s):
+    """ASSUMPTION of the check: add_route is never given a pregenerator of the application's own"""
+    return ast.unparse(s.test) == 'original_pregenerator' and not s.orelse and \
+        [ast.unparse(x) for x in s.body] == ['elements, kw = original_pregenerator(request, elements, kw)']
+
+
 # every source function whose control flow is regenerated on every run (coverage map, tools/coverage_map.py)
 TRANSLATED = ['pyramid/url.py:URLMethodsMixin._partial_application_url', 'pyramid/url.py:parse_url_overrides',
               'pyramid/encode.py:url_quote', 'pyramid/encode.py:quote_plus', 'pyramid/encode.py:urlencode',
               'pyramid/url.py:URLMethodsMixin.route_path', 'pyramid/url.py:URLMethodsMixin.resource_path',
-              'pyramid/url.py:URLMethodsMixin.static_path', 'pyramid/url.py:URLMethodsMixin.current_route_path']
+              'pyramid/url.py:URLMethodsMixin.static_path', 'pyramid/url.py:URLMethodsMixin.current_route_path',
+              'pyramid/url.py:URLMethodsMixin.route_url', 'pyramid/url.py:URLMethodsMixin.current_route_url',
+              'pyramid/url.py:URLMethodsMixin.static_url',
+              'pyramid/url.py:route_url', 'pyramid/url.py:route_path', 'pyramid/url.py:resource_url',
+              'pyramid/url.py:static_url', 'pyramid/url.py:static_path', 'pyramid/url.py:current_route_url',
+              'pyramid/url.py:current_route_path',
+              'pyramid/config/routes.py:RoutesConfiguratorMixin.add_route.external_url_pregenerator']
 
 RES_T = 'res text'
 
 GLUE_SIG = '(c : jcache) (e : env) (rs : list (text * pattern))'
 GLUE_SIG_X = '(c : jcache) (e : env) (xs : extinfo) (rs : list (text * pattern))'
+STATIC_SIG = ('(e : env) (rs : list (text * pattern)) (regs : list reg) (path : text) (o : overrides)'
+              ' (kw : list (text * kwval)) : res text')
 FUNCS = [
     dict(mod='pyramid/url.py', qual='URLMethodsMixin._partial_application_url', gen='gen_partial_application_url', ret=TEXT,
          coqret=RES_T, sig='(e : env) (scheme host port : option text) : res text',
@@ -827,32 +1078,77 @@ FUNCS = [
     dict(mod='pyramid/encode.py', qual='urlencode', gen='gen_urlencode', ret=TEXT, coqret=RES_T,
          sig='(query : list (pval * qval)) : res text',
          params=[('query', PAIRS, 'nodefault'), (None, ERASED, True), ('quote_via', FUNC, 'quote_plus')]),
-    dict(mod='pyramid/url.py', qual='URLMethodsMixin.route_path', gen='gen_route_path', ret=TEXT, coqret=RES_T,
+    dict(mod='pyramid/url.py', qual='URLMethodsMixin.route_path', argnames=['self', 'route_name'], gen='gen_route_path', ret=TEXT, coqret=RES_T,
          sig=GLUE_SIG_X + ' (name : text) (els : list pval) (o : overrides) (kw : list (text * kwval)) : res text',
          app_url_key='_app_url',
-         params=[('e', SELF, 'nodefault'), ('route_name', NAME, 'nodefault'), ('els', ELS, Ellipsis), ('o', KWD, Ellipsis)]),
-    dict(mod='pyramid/url.py', qual='URLMethodsMixin.resource_path', gen='gen_resource_path', ret=TEXT, coqret=RES_T,
+         params=[('e', SELF, 'nodefault'), ('name', NAME, 'nodefault'), ('els', ELS, Ellipsis), ('o', KWD, Ellipsis)]),
+    dict(mod='pyramid/url.py', qual='URLMethodsMixin.resource_path', argnames=['self', 'resource'], gen='gen_resource_path', ret=TEXT, coqret=RES_T,
          sig=GLUE_SIG + ' (names els : list pval) (o : overrides) (vroot : option text)'
              ' (rn : option (text * text * option (list (text * kwval)))) : res text',
          app_url_key='app_url',
          params=[('e', SELF, 'nodefault'), ('resource', NAME, 'nodefault'), ('els', ELS, Ellipsis), ('o', KWD, Ellipsis)]),
-    dict(mod='pyramid/url.py', qual='URLMethodsMixin.static_path', gen='gen_static_path', ret=TEXT, coqret=RES_T,
+    dict(mod='pyramid/url.py', qual='URLMethodsMixin.static_path', argnames=['self', 'path'], gen='gen_static_path', ret=TEXT, coqret=RES_T,
          sig='(e : env) (rs : list (text * pattern)) (regs : list reg) (path : text) (o : overrides)'
              ' (kw : list (text * kwval)) : res text',
          app_url_key='_app_url', prelude=static_prelude,
          params=[('e', SELF, 'nodefault'), ('path', NAME, 'nodefault'), ('o', KWD, Ellipsis)]),
-    dict(mod='pyramid/url.py', qual='URLMethodsMixin.current_route_path', gen='gen_current_route_path', ret=TEXT, coqret=RES_T,
+    dict(mod='pyramid/url.py', qual='URLMethodsMixin.current_route_path', argnames=['self'], gen='gen_current_route_path', ret=TEXT, coqret=RES_T,
          sig=GLUE_SIG_X + ' (rname matched : option text) (md : list (text * kwval)) (gt : list (pval * qval))'
              ' (els : list pval) (o : overrides) (kw : list (text * kwval)) : res text',
          app_url_key='_app_url',
          params=[('e', SELF, 'nodefault'), ('els', ELS, Ellipsis), ('o', KWD, Ellipsis)]),
+    # ---- round 5: the helpers themselves and the function forms of pyramid.url
+    dict(mod='pyramid/url.py', qual='URLMethodsMixin.route_url', argnames=['self', 'route_name'], gen='gen_route_url', ret=TEXT, coqret=RES_T,
+         sig=GLUE_SIG_X + ' (name : text) (els : list pval) (o : overrides) (kw : list (text * kwval)) : res text',
+         params=[('e', SELF, 'nodefault'), ('name', NAME, 'nodefault'), ('els', ELS, Ellipsis), ('o', KWD, Ellipsis)]),
+    dict(mod='pyramid/url.py', qual='URLMethodsMixin.current_route_url', argnames=['self'], gen='gen_current_route_url', ret=TEXT, coqret=RES_T,
+         sig=GLUE_SIG_X + ' (rname matched : option text) (md : list (text * kwval)) (gt : list (pval * qval))'
+             ' (els : list pval) (o : overrides) (kw : list (text * kwval)) : res text',
+         query_default=True, kw_keys={'_route_name': 'rname', '_query': 'o_query %(o)s'},
+         params=[('e', SELF, 'nodefault'), ('els', ELS, Ellipsis), ('o', KWD, Ellipsis)]),
+    dict(mod='pyramid/url.py', qual='URLMethodsMixin.static_url', argnames=['self', 'path'], gen='gen_static_url', ret=TEXT, coqret=RES_T,
+         sig=STATIC_SIG, prelude=static_prelude,
+         params=[('e', SELF, 'nodefault'), ('path', NAME, 'nodefault'), ('o', KWD, Ellipsis)]),
+    dict(mod='pyramid/url.py', qual='route_url', argnames=['route_name', 'request'], gen='gen_fn_route_url', ret=TEXT, coqret=RES_T,
+         sig=GLUE_SIG_X + ' (name : text) (els : list pval) (o : overrides) (kw : list (text * kwval)) : res text',
+         params=[('name', NAME, 'nodefault'), ('e', REQ, 'nodefault'), ('els', ELS, Ellipsis), ('o', KWD, Ellipsis)]),
+    dict(mod='pyramid/url.py', qual='route_path', argnames=['route_name', 'request'], gen='gen_fn_route_path', ret=TEXT, coqret=RES_T,
+         sig=GLUE_SIG_X + ' (name : text) (els : list pval) (o : overrides) (kw : list (text * kwval)) : res text',
+         params=[('name', NAME, 'nodefault'), ('e', REQ, 'nodefault'), ('els', ELS, Ellipsis), ('o', KWD, Ellipsis)]),
+    dict(mod='pyramid/url.py', qual='resource_url', argnames=['resource', 'request'], gen='gen_fn_resource_url', ret=TEXT, coqret=RES_T,
+         sig=GLUE_SIG + ' (names els : list pval) (o : overrides) (vroot : option text)'
+             ' (rn : option (text * text * option (list (text * kwval)))) : res text',
+         params=[('resource', NAME, 'nodefault'), ('e', REQ, 'nodefault'), ('els', ELS, Ellipsis), ('o', KWD, Ellipsis)]),
+    dict(mod='pyramid/url.py', qual='static_url', argnames=['path', 'request'], gen='gen_fn_static_url', ret=TEXT, coqret=RES_T, sig=STATIC_SIG,
+         prelude=static_prelude, params=[('path', NAME, 'nodefault'), ('e', REQ, 'nodefault'), ('o', KWD, Ellipsis)]),
+    dict(mod='pyramid/url.py', qual='static_path', argnames=['path', 'request'], gen='gen_fn_static_path', ret=TEXT, coqret=RES_T, sig=STATIC_SIG,
+         prelude=static_prelude, params=[('path', NAME, 'nodefault'), ('e', REQ, 'nodefault'), ('o', KWD, Ellipsis)]),
+    dict(mod='pyramid/url.py', qual='current_route_url', argnames=['request'], gen='gen_fn_current_route_url', ret=TEXT, coqret=RES_T,
+         sig=GLUE_SIG_X + ' (rname matched : option text) (md : list (text * kwval)) (gt : list (pval * qval))'
+             ' (els : list pval) (o : overrides) (kw : list (text * kwval)) : res text',
+         params=[('e', REQ, 'nodefault'), ('els', ELS, Ellipsis), ('o', KWD, Ellipsis)]),
+    dict(mod='pyramid/url.py', qual='current_route_path', argnames=['request'], gen='gen_fn_current_route_path', ret=TEXT, coqret=RES_T,
+         sig=GLUE_SIG_X + ' (rname matched : option text) (md : list (text * kwval)) (gt : list (pval * qval))'
+             ' (els : list pval) (o : overrides) (kw : list (text * kwval)) : res text',
+         params=[('e', REQ, 'nodefault'), ('els', ELS, Ellipsis), ('o', KWD, Ellipsis)]),
+    # the pregenerator closure add_route installs for a route whose pattern is a full URL
+    dict(mod='pyramid/config/routes.py', qual='RoutesConfiguratorMixin.add_route.external_url_pregenerator', gen='gen_ext_pregen',
+         ret=OVR, coqret='res overrides', sig='(e : env) (els : list pval) (o : overrides) (x : option text * text) : res overrides',
+         kw_positional=True, app_url_key='_app_url', prelude=no_user_pregenerator,
+         kw_keys={'_app_url': 'o_app_url %(o)s', '_scheme': 'o_scheme %(o)s'},
+         closure={'parsed': ('x', PARSEDURL)},
+         params=[('e', REQ, 'nodefault'), ('els', ELS, 'nodefault'), ('o', KWD, 'nodefault')]),
 ]
 
 
 def find(tree, qual):
     node = tree
-    for part in qual.split('.'):
+    parts = qual.split('.')
+    for i, part in enumerate(parts):
         nxt = [c for c in node.body if isinstance(c, (ast.FunctionDef, ast.ClassDef)) and c.name == part]
+        if len(nxt) != 1 and i == len(parts) - 1 and isinstance(node, ast.FunctionDef):
+            # a closure defined somewhere inside the enclosing function
+            nxt = [c for c in ast.walk(node) if isinstance(c, ast.FunctionDef) and c.name == part and c is not node]
         if len(nxt) != 1:
             return None
         node = nxt[0]
@@ -914,7 +1210,7 @@ HEADER = '''(* GENERATED on every run by harness/c17/translate.py from the sourc
    Control flow translated mechanically; leaves through the primitive table of that file. *)
 From Coq Require Import List NArith ZArith Bool.
 Import ListNotations.
-Require Import Verif.Lib.Wire Verif.Lib.Text Verif.Lib.Utf8 Verif.Lib.Percent Verif.Gen.Facts_C17 Verif.Model.C17.
+Require Import Verif.Lib.Wire Verif.Lib.Text Verif.Lib.Utf8 Verif.Lib.Percent Verif.Gen.Facts_C17 Verif.Model.C17 Verif.Model.C17_glue.
 Open Scope N_scope.
 
 '''
